@@ -1,39 +1,99 @@
 ---- MODULE DagTrace ----
+(* Trace monitor for executions of a finalized plan on cubed's REAL executors (single-threaded, threads, processes),
+   recorded at the Zarr store boundary (LocalStore get/set call and return events, ordered by the system-wide
+   monotonic clock) and at the callback boundary.  It checks what C07 and C13 state, per computation.
+
+   Rules come from the property statements and from who WRITES what (array -> producer, taken from the operations'
+   write targets and the store records), never from the plan's dependency edges:
+     C07  array creation ended before any other operation starts;
+          a data chunk of a produced array is read only after its producer's operation-end, and the read hits;
+          a data chunk of a produced array is written only while its producer runs (a later write is tolerated only
+          if byte-identical to what the key holds: backup twins are never cancelled);
+          the producer's operation-end comes after the return of every write of its outputs;
+          metadata of a lazily created array is found once array creation ended.
+     C13  one compute-start first, one compute-end last; per operation one start before and one end after all of its
+          task-end notifications; delivered task count = advertised num_tasks; every runnable operation ran.
+   The monitor is TOTAL: the first clause a trace breaks is its verdict.
+
+   Input: JSON array of traces [plan |-> [ops: <<[name, nt, nmap, computed]>>, arrays: <<[name, prod, lazy]>>, total],
+                                events |-> << [ev, op, arr, key, data, hit, n, id, h] >>]                                *)
 EXTENDS Integers, Sequences, FiniteSets, TLC, Json, IOUtils
-J == JsonDeserialize(IOEnv.TRACE_FILE)
-Plan == J.plan
-Log == J.events
+CONSTANT Focus   \* "C07" | "C13" | "all": which property's clauses are evaluated (a check never reports another property's clause)
+P7 == Focus \in {"C07", "all"}
+P13 == Focus \in {"C13", "all"}
+Traces == JsonDeserialize(IOEnv.TRACE_FILE)
+VARIABLES tid, l, phase, started, ended, ntask, open, held, verdict
+vars == <<tid, l, phase, started, ended, ntask, open, held, verdict>>
+T == Traces[tid]
+Plan == T.plan
+Log == T.events
+E == Log[l]
+SeqSet(s) == {s[i] : i \in 1..Len(s)}
 OpNames == {Plan.ops[i].name : i \in 1..Len(Plan.ops)}
 OpRec(o) == Plan.ops[CHOOSE i \in 1..Len(Plan.ops) : Plan.ops[i].name = o]
-SeqSet(s) == {s[i] : i \in 1..Len(s)}
-Deps(o) == SeqSet(OpRec(o).deps)
-Produced == {Plan.arrays[i].name : i \in 1..Len(Plan.arrays)}
-Prod(a) == Plan.arrays[CHOOSE i \in 1..Len(Plan.arrays) : Plan.arrays[i].name = a].prod
-VARIABLES l, phase, started, ended, ntask, open
-vars == <<l, phase, started, ended, ntask, open>>
-Init == l = 1 /\ phase = "idle" /\ started = {} /\ ended = {} /\ ntask = [o \in OpNames |-> 0] /\ open = {}
-E == Log[l]
-Is(e) == l <= Len(Log) /\ E.ev = e /\ l' = l + 1
-ComputeStart == Is("computestart") /\ phase = "idle" /\ phase' = "run" /\ UNCHANGED <<started, ended, ntask, open>>
-ComputeEnd == Is("computeend") /\ phase = "run" /\ ended = started /\ phase' = "done" /\ UNCHANGED <<started, ended, ntask, open>>
-OpStart == Is("opstart") /\ phase = "run" /\ E.op \in OpNames /\ E.op \notin started
-           /\ (E.op # "create-arrays" /\ "create-arrays" \in OpNames => "create-arrays" \in ended)   \* C07: array creation runs first
-           /\ started' = started \cup {E.op} /\ UNCHANGED <<phase, ended, ntask, open>>
-TaskEnd == Is("taskend") /\ E.op \in started \ ended                       \* C13: between start and end
-           /\ ntask' = [ntask EXCEPT ![E.op] = @ + E.n] /\ UNCHANGED <<phase, started, ended, open>>
-OpEnd == Is("opend") /\ E.op \in started \ ended
-         /\ ntask[E.op] = OpRec(E.op).nt                                   \* C13: advertised = delivered
-         /\ ~(\E w \in open : Prod(w[2]) = E.op)                           \* every set of its outputs has returned
-         /\ ended' = ended \cup {E.op} /\ UNCHANGED <<phase, started, ntask, open>>
-SetCall == Is("setcall") /\ (E.data => Prod(E.arr) \in started \ ended)     \* data written only while the producer runs
-           /\ open' = open \cup {<<E.id, E.arr>>} /\ UNCHANGED <<phase, started, ended, ntask>>
-SetRet == Is("setret") /\ open' = open \ {<<E.id, E.arr>>} /\ UNCHANGED <<phase, started, ended, ntask>>
-GetCall == Is("getcall") /\ (E.data => Prod(E.arr) \in ended)               \* C07: no read before the producer ended
-           /\ UNCHANGED <<phase, started, ended, ntask, open>>
-GetRet == Is("getret") /\ (E.data => E.hit)                                 \* C07: never falls back to fill values
-          /\ UNCHANGED <<phase, started, ended, ntask, open>>
-Next == ComputeStart \/ ComputeEnd \/ OpStart \/ TaskEnd \/ OpEnd \/ SetCall \/ SetRet \/ GetCall \/ GetRet
+Computed == {o \in OpNames : OpRec(o).computed}
+ArrNames == {Plan.arrays[i].name : i \in 1..Len(Plan.arrays)}
+ArrRec(a) == Plan.arrays[CHOOSE i \in 1..Len(Plan.arrays) : Plan.arrays[i].name = a]
+\* produced by this computation: has a producer operation that is part of the plan
+Produced(a) == a \in ArrNames /\ ArrRec(a).prod \in OpNames
+Prod(a) == ArrRec(a).prod
+RECURSIVE SumNT(_)
+SumNT(i) == IF i = 0 THEN 0 ELSE Plan.ops[i].nt + SumNT(i - 1)
+HasCreate == "create-arrays" \in OpNames
+Init == /\ tid \in 1..Len(Traces) /\ l = 1 /\ phase = "idle" /\ started = {} /\ ended = {}
+        /\ ntask = [o \in OpNames |-> 0] /\ open = {} /\ held = [k \in {} |-> ""] /\ verdict = "ok"
+Fail(c) == verdict' = c /\ UNCHANGED <<tid, l, phase, started, ended, ntask, open, held>>
+Adv == l' = l + 1 /\ UNCHANGED <<tid, verdict>>
+Ran(o) == o \in ended \/ o \in Computed        \* settled: finished in this computation, or skipped as already computed
+Step ==
+  /\ verdict = "ok" /\ l <= Len(Log)
+  /\ CASE E.ev = "computestart" ->
+            IF P13 /\ (phase # "idle") THEN Fail("C13:ComputeStartOnce")
+            ELSE IF P13 /\ (\E i \in 1..Len(Plan.ops) : Plan.ops[i].nmap # Plan.ops[i].nt) THEN Fail("C13:AdvertisedVsIterable")
+            ELSE IF P13 /\ (Plan.total >= 0 /\ Plan.total # SumNT(Len(Plan.ops))) THEN Fail("C13:PlanTotal")
+            ELSE phase' = "run" /\ Adv /\ UNCHANGED <<started, ended, ntask, open, held>>
+       [] E.ev = "computeend" ->
+            IF P13 /\ (phase # "run") THEN Fail("C13:ComputeEndOrder")
+            ELSE IF P13 /\ (started # ended) THEN Fail("C13:ComputeEndBeforeOpEnd")
+            ELSE IF P13 /\ (\E o \in OpNames \ Computed : o \notin ended) THEN Fail("C13:OperationNeverRan")
+            ELSE phase' = "done" /\ Adv /\ UNCHANGED <<started, ended, ntask, open, held>>
+       [] E.ev = "opstart" ->
+            IF P13 /\ (phase # "run") THEN Fail("C13:EventOutsideCompute")
+            ELSE IF P13 /\ (E.op \notin OpNames) THEN Fail("C13:UnknownOperation")
+            ELSE IF P13 /\ (E.op \in started) THEN Fail("C13:OpStartOnce")
+            ELSE IF P13 /\ (E.op \in Computed) THEN Fail("C09:ComputedOperationRan")
+            ELSE IF P7 /\ (E.op # "create-arrays" /\ HasCreate /\ ~Ran("create-arrays")) THEN Fail("C07:CreateArraysFirst")
+            ELSE started' = started \cup {E.op} /\ Adv /\ UNCHANGED <<phase, ended, ntask, open, held>>
+       [] E.ev = "taskend" ->
+            IF P13 /\ (E.op \notin started \ ended) THEN Fail("C13:TaskEndOutsideOperation")
+            ELSE ntask' = [ntask EXCEPT ![E.op] = @ + E.n] /\ Adv /\ UNCHANGED <<phase, started, ended, open, held>>
+       [] E.ev = "opend" ->
+            IF P13 /\ (E.op \notin started \ ended) THEN Fail("C13:OpEndOrder")
+            ELSE IF P13 /\ (ntask[E.op] # OpRec(E.op).nt) THEN Fail("C13:TaskCountMismatch")
+            ELSE IF P7 /\ (\E w \in open : Produced(w[2]) /\ Prod(w[2]) = E.op) THEN Fail("C07:OpEndBeforeWriteReturned")
+            ELSE ended' = ended \cup {E.op} /\ Adv /\ UNCHANGED <<phase, started, ntask, open, held>>
+       [] E.ev = "setcall" ->
+            IF P7 /\ (E.data /\ Produced(E.arr) /\ Prod(E.arr) \notin started) THEN Fail("C07:WriteBeforeProducerStarted")
+            ELSE IF P7 /\ (E.data /\ Produced(E.arr) /\ Prod(E.arr) \in ended
+                    /\ ~(<<E.arr, E.key>> \in DOMAIN held /\ held[<<E.arr, E.key>>] = E.h)) THEN Fail("C07:LateWriteDiffers")
+            ELSE /\ open' = open \cup {<<E.id, E.arr>>}
+                 /\ held' = IF E.data THEN [k \in DOMAIN held \cup {<<E.arr, E.key>>} |-> IF k = <<E.arr, E.key>> THEN E.h ELSE held[k]] ELSE held
+                 /\ Adv /\ UNCHANGED <<phase, started, ended, ntask>>
+       [] E.ev = "setret" ->
+            open' = open \ {<<E.id, E.arr>>} /\ Adv /\ UNCHANGED <<phase, started, ended, ntask, held>>
+       [] E.ev = "getcall" ->
+            IF P7 /\ (E.data /\ Produced(E.arr) /\ ~Ran(Prod(E.arr))) THEN Fail("C07:ReadBeforeProducerEnded")
+            ELSE Adv /\ UNCHANGED <<phase, started, ended, ntask, open, held>>
+       [] E.ev = "getret" ->
+            IF P7 /\ (E.data /\ Produced(E.arr) /\ ~E.hit) THEN Fail("C07:ReadFellBackToFill")
+            ELSE IF P7 /\ (~E.data /\ E.arr \in ArrNames /\ ArrRec(E.arr).lazy /\ HasCreate /\ Ran("create-arrays")
+                    /\ E.key = "zarr.json" /\ ~E.hit) THEN Fail("C07:MetadataMissingAfterCreate")
+            ELSE Adv /\ UNCHANGED <<phase, started, ended, ntask, open, held>>
+       [] OTHER -> Fail("UnknownEvent")
+Finish == /\ verdict = "ok" /\ l = Len(Log) + 1
+          /\ IF P13 /\ (phase # "done") THEN Fail("C13:NoComputeEnd") ELSE (l' = l + 1 /\ UNCHANGED <<tid, phase, started, ended, ntask, open, held, verdict>>)
+Next == Step \/ Finish
 Spec == Init /\ [][Next]_vars
-Accepted == TLCGet("stats").diameter - 1 = Len(Log)
-Stuck == IF TLCGet("stats").diameter - 1 = Len(Log) THEN TRUE ELSE PrintT(<<"REJECTED at", TLCGet("stats").diameter, Log[TLCGet("stats").diameter]>>)
+Final == verdict # "ok" \/ l = Len(Log) + 2
+Report == Final => PrintT(<<"VERDICT", tid, verdict, l>>)
 ====
